@@ -178,5 +178,10 @@ let () = register "filters" (fun c ->
     let where = (match Model.flt_validate r flt with
       | Model.FvOk -> "(" ^ flt_print res pit_z (Model.flt_emit r flt) ^ ")"
       | _ -> "-") in
-    L [L [A "res"; res_sx]; L [A "ref"; ref_sx]; L [A "where"; S where]]
+    (* push-down DECISION (utils.go: canPushAddressFilterToLateral, collectAddressFilters) *)
+    let addrs = Model.collect_addrs flt in
+    let b01 b = A (if b then "1" else "0") in
+    let push = L [A "push"; b01 (Model.safe_lateral false flt); b01 (Model.need_segments flt);
+                  L (List.map (fun a -> S (sc a)) addrs)] in
+    L [L [A "res"; res_sx]; L [A "ref"; ref_sx]; L [A "where"; S where]; push]
   | _ -> failwith "bad filters case")
